@@ -293,16 +293,16 @@ pub fn gen_scen(rng: &mut Rng, _thorough: bool) -> Scen {
             for sd in 0..n { match rng.below(5) { 0 => { seeds.insert(sd.to_string(), json!({"stdout": "{\"objFuncVal\": null}"})); } 1 => { seeds.insert(sd.to_string(), json!({"stdout": "{}"})); } _ => { acc += 1; } } }
             sc.plan = json!({"default": {"value_of_seed": *rng.pick(&["neg", "pos", "const"])}, "seeds": seeds});
             sc.out_dir = *rng.pick(&[0, 1, 1]);
-            match rng.below(6) {
+            match rng.below(9) {
                 0 | 1 | 2 => { sc.spec_yaml = SPEC_HOSTILE.into(); }
                 // a root enum: every parameter set is a top-level JSON string
                 3 => { sc.spec_yaml = "type: enum\nvalues: [plain, \"two words\", \"quo\\\"te\", \"7\", \"true\"]\ninit: plain\n".into(); }
                 // many members with multi-byte names: the initial value is several hundred bytes of JSON, and wherever a
                 // byte-indexed cut falls, in some of these documents it falls inside a character
-                4 => {
+                4 | 6 | 7 | 8 => {
                     let mut y = String::new();
                     let shift = rng.below(7) as usize;
-                    for i in 0..28 { y += &format!("\"{}{}st\u{e4}rke{}\":\n  type: real\n  init: 0.{}\n  scale: 0.1\n", "x".repeat(if i == 0 { shift } else { 0 }), ["\u{e4}", "\u{20ac}", "\u{1f600}", "\u{f6}\u{fc}"][i % 4], i, i + 1); }
+                    for i in 0..28 { y += &format!("\"{}{}\u{e4}\u{f6}\u{fc}\u{e4}\u{f6}\u{fc}st\u{e4}rke{}\":\n  type: real\n  init: 0.{}\n  scale: 0.1\n", "x".repeat(if i == 0 { shift } else { 0 }), ["\u{e4}", "\u{20ac}", "\u{1f600}", "\u{f6}\u{fc}"][i % 4], i, i + 1); }
                     sc.spec_yaml = y;
                 }
                 _ => {}
@@ -492,6 +492,8 @@ pub fn gen_scen(rng: &mut Rng, _thorough: bool) -> Scen {
                 let mut sc = base_scen("outputs");
                 sc.spec_yaml = "typeDef flag:\n  type: bool\n  init: false\nflags:\n  type: anon map\n  initSize: 3\n  valueType:\n    type: flag\ntags:\n  type: anon map\n  initSize: 0\n  valueType:\n    type: flag\nmode:\n  type: enum\n  values: [a, b, c]\n  init: a\non:\n  type: bool\n  init: true\n".into();
                 sc.opts = vec![s("-n"), s("40")];
+                // half of the time from an explicit guess (its maps written as JSON objects with sparse keys)
+                if rng.chance(1, 2) { sc.opts.push(s("--initial-guess")); sc.opts.push(s("{\"flags\":{\"0\":true,\"1\":false,\"5\":true},\"tags\":{\"2\":true},\"mode\":\"b\",\"on\":false}")); }
                 if verbose { sc.opts.push(s("--verbose")); }
                 sc.plan = json!({"default": {"value_of_seed": *rng.pick(&["pos", "neg", "const"])}});
                 sc.out_dir = *rng.pick(&[0, 1]);
